@@ -27,7 +27,8 @@ EXPLANATION = (
     ' (R14) who-may-delete census (C09.R3); (R15) every pointer write publishes a name freshly allocated by _new_metadata_filename in the same function (the pointer never moves to an old version).'
     ' (R16) every backend operation does its work and both listings keep every entry (C20.R8).'
     " (R19) only the two committers write the pointer (write-namespace census, C09.R1): no lock-free 'repair' of the hint."
-    ' R11 also forbids ordering over text (file names, regex groups, tuples starting with one); R15 requires the published content to be the bare name; (R20) the local mtime is returned untruncated.')
+    ' R11 also forbids ordering over text (file names, regex groups, tuples starting with one); R15 requires the published content to be the bare name; (R20) the local mtime is returned untruncated.'
+    ' (R21) the name _new_metadata_filename builds is in the language of the metadata regex (scenario); (R22) version numbers are never truth-tested; R11 also forbids a text component before the mtime in any max / min / sorted over recovery candidates; R1 reads regexes assembled from named pieces.')
 NOT_DECIDED = ("byte-level pointer grammar x histories at run time; orphans left by a crash (no exception path exists to "
                "clean them - format limitation)")
 
